@@ -523,7 +523,8 @@ def copyChildren (fs : FS) (g : String) (S : Path) (df : String) : H5File → Li
     match lookupK h.entries [x] with
     | some _ => (h, .err .runtime)
     | none =>
-      match resolve fs g (S ++ [x]) with
+      -- both files are open: a link child is resolved against what the destination holds by now
+      match resolve (setFile fs df h) g (S ++ [x]) with
       | none => (h, .err .runtime)
       | some (g', Q) =>
         if g' = df then (h, .corner "source reaches the destination file through a link") else
